@@ -38,7 +38,16 @@ type fakeClient struct {
 	onPermissions func()
 	onJoined      func(kind string)
 	onPushClient  func(kind, id string)
+	onGetStats    func()
 	events        atomic.Int64
+}
+
+// GetStats makes the fake a stats.Statable: the statistics page asks every member for its numbers.
+func (c *fakeClient) GetStats() *stats.Client {
+	if c.onGetStats != nil {
+		c.onGetStats()
+	}
+	return &stats.Client{Id: c.id}
 }
 
 func (c *fakeClient) Group() *group.Group          { return c.g.Load() }
@@ -565,10 +574,19 @@ func TestVerif_C13_CoordinatedSchedules(t *testing.T) {
 		if _, err := group.AddClient(gname, W, group.ClientCredentials{Username: &anyone, Password: "p"}); err != nil {
 			t.Fatalf("VERIF-HARNESS-ERROR: whip join: %v", err)
 		}
-		pauseIn := rapid.SampledFrom([]string{"Permissions", "Permissions", "Joined", "PushClient"}).Draw(t, "pauseIn")
-		first := rapid.SampledFrom([]string{"join", "join", "leave-op", "lock", "reload"}).Draw(t, "pausedOperation")
-		second := rapid.SampledFrom([]string{"whip-close", "whip-close", "whip-offer", "whip-offer", "whip-offer-then-close", "join", "leave", "kick-whip", "stats", "getclients"}).Draw(t, "meanwhile")
+		// a real web client too, driven by whoever plays its loop
+		wb := newSimClient("Wb")
+		if err := handleClientMessage(wb.c, clientMessage{Type: "join", Kind: "join", Group: gname, Username: &u, Password: "p"}); err != nil || wb.c.group == nil {
+			t.Fatalf("VERIF-HARNESS-ERROR: web client join: %v", err)
+		}
+		pauseIn := rapid.SampledFrom([]string{"Permissions", "Permissions", "Joined", "PushClient", "GetStats"}).Draw(t, "pauseIn")
+		first := rapid.SampledFrom([]string{"join", "join", "leave-op", "lock", "reload", "stats"}).Draw(t, "pausedOperation")
+		second := rapid.SampledFrom([]string{"whip-close", "whip-close", "whip-offer", "whip-offer", "whip-offer-then-close", "join", "leave", "kick-whip", "stats", "getclients", "web-offer", "web-offer"}).Draw(t, "meanwhile")
 		offerSDP := c13WhipOffer()
+		if rapid.IntRange(0, 3).Draw(t, "statsVsOffer") == 0 {
+			// the statistics page walking the members while a member's loop sets up a connection
+			pauseIn, first, second = "GetStats", "stats", "web-offer"
+		}
 		entered := make(chan struct{}, 1)
 		release := make(chan struct{})
 		var once sync.Once
@@ -590,6 +608,8 @@ func TestVerif_C13_CoordinatedSchedules(t *testing.T) {
 			F.onJoined = func(string) { pause() }
 		case "PushClient":
 			F.onPushClient = func(string, string) { pause() }
+		case "GetStats":
+			F.onGetStats = pause
 		}
 		var wg sync.WaitGroup
 		wg.Add(1)
@@ -611,6 +631,8 @@ func TestVerif_C13_CoordinatedSchedules(t *testing.T) {
 				d2["description"] = "changed"
 				writeGroupFile(gname, d2)
 				group.Add(gname, nil)
+			case "stats":
+				stats.GetGroups()
 			}
 		}()
 		overlapped := false
@@ -647,6 +669,18 @@ func TestVerif_C13_CoordinatedSchedules(t *testing.T) {
 				stats.GetGroups()
 			case "getclients":
 				g.GetClients(nil)
+			case "web-offer":
+				// the web client's own loop: an offer for a new stream, then whatever got queued for it
+				handleClientMessage(wb.c, clientMessage{Type: "offer", Id: "wbup", Label: "camera", SDP: offerSDP})
+				for k := 0; k < 20; k++ {
+					select {
+					case <-wb.c.actions.Ch:
+						for _, a := range wb.c.actions.Get() {
+							handleAction(wb.c, a)
+						}
+					default:
+					}
+				}
 			}
 		}()
 		// let the second operation reach whatever it is going to block on, then release the first
@@ -662,7 +696,8 @@ func TestVerif_C13_CoordinatedSchedules(t *testing.T) {
 			c13dRec.Class("inconclusive_timeout")
 		} else {
 			// cleanup
-			F.onPermissions, F.onJoined, F.onPushClient = nil, nil, nil
+			F.onPermissions, F.onJoined, F.onPushClient, F.onGetStats = nil, nil, nil, nil
+			leaveGroup(wb.c)
 			W.Close()
 			for _, c := range g.GetClients(nil) {
 				group.DelClient(c)
